@@ -2,6 +2,7 @@ package updog
 
 import (
 	"encoding/binary"
+	"errors"
 	"fmt"
 	"sort"
 	"strings"
@@ -32,6 +33,14 @@ func (idx *Index) Execute(q *Query) (*Result, error) {
 		defer func(t0 time.Time) {
 			idx.metrics.ExecuteDuration.Observe(time.Since(t0).Seconds())
 		}(time.Now())
+	}
+
+	if q == nil {
+		return nil, errors.New("no query provided")
+	}
+
+	if err := validateExpr(q.Expr); err != nil {
+		return nil, err
 	}
 
 	idx.mtx.RLock()
@@ -82,6 +91,47 @@ type Expression interface {
 	eval(idx *Index) (*roaring.Bitmap, error)
 	String() string
 	cacheKey() uint64
+}
+
+// validateExpr makes sure that the expression tree is complete, i.e. that no
+// expression or operand is missing, so that evaluating it can't dereference nil.
+func validateExpr(e Expression) error {
+	switch v := e.(type) {
+	case nil:
+		return errors.New("incomplete query: expression missing")
+	case *ExprEqual:
+		if v == nil {
+			return errors.New("incomplete query: expression missing")
+		}
+	case *ExprNot:
+		if v == nil {
+			return errors.New("incomplete query: expression missing")
+		}
+
+		return validateExpr(v.Expr)
+	case *ExprAnd:
+		if v == nil {
+			return errors.New("incomplete query: expression missing")
+		}
+
+		for _, ee := range v.Exprs {
+			if err := validateExpr(ee); err != nil {
+				return err
+			}
+		}
+	case *ExprOr:
+		if v == nil {
+			return errors.New("incomplete query: expression missing")
+		}
+
+		for _, ee := range v.Exprs {
+			if err := validateExpr(ee); err != nil {
+				return err
+			}
+		}
+	}
+
+	return nil
 }
 
 func (q *Query) populateGroupBy(columns []string, sch *schema) error {
